@@ -62,8 +62,16 @@ HookStep == \/ LRhDeq
 SentAt(i) == LastIdx(LAMBDA r : r.a \in {"bpsend", "rbsend"} /\ r.bp = i)
 FirstOnConnection(i) == \A j \in BpIds : (j # i /\ bps[j].used /\ bps[j].broker = bps[i].broker /\ bps[j].out.busy /\ bps[j].out.res = "pending")
                                           => SentAt(i) < SentAt(j)
+\* the application has at most SubmitWindow messages without an outcome (NMsgs = it submits whenever it can; smaller windows
+\* spread the submissions over the behaviour, so that fresh messages meet partitions that are in a retry phase or past one).
+\* Instances override it with W1..W3
+SubmitWindow == NMsgs
+W1 == 1
+W2 == 2
+W3 == 3
+Pending == Cardinality({m \in Msgs : m < nextSub /\ outcome[m] = "none"})
 ConductNext == IF EagerEnabled THEN EagerStep /\ UNCHANGED hist
-               ELSE \/ LSubmit
+               ELSE \/ (Pending < SubmitWindow /\ LSubmit)
                     \/ \E i \in BpIds : FirstOnConnection(i) /\ LBrokerHandle(i)
                     \/ LLeaderMove
                     \/ (HookStep /\ UNCHANGED hist)
